@@ -177,7 +177,7 @@ class Repo:
         from .inline import normalise
         self.inline_notes = normalise(self.modules)
         if self.inline_notes['inlined'] or self.inline_notes.get('modules_absorbed') or any(
-                self.inline_notes.get(k) for k in ('static_classes_lifted', 'decorators_expanded',
+                self.inline_notes.get(k) for k in ('partials_specialised', 'idioms_canonicalised', 'static_classes_lifted', 'decorators_expanded',
                                                    'context_managers_expanded', 'generators_converted')):
             for m in self.modules.values():
                 m.funcs.clear()
